@@ -134,3 +134,114 @@ Proof.
   { apply mem_str_In. apply lookup_In in Hl. unfold keys. apply in_map_iff. exists (s, d). split; [reflexivity | assumption]. }
   unfold with_secret. simpl. rewrite Hm. simpl. reflexivity.
 Qed.
+
+(* ---- what a reference to a NoEcho parameter is bound to, through the whole merge ---- *)
+Theorem bind_params_noecho pseudo decls extra ps s d :
+  bind_params pseudo decls extra = Ok ps -> NoDup (keys decls) -> lookup s decls = Some d -> is_noecho d = true ->
+  lookup s ps = Some (VStr (match supplied s extra, field K_Default d with
+                            | Some _, _ => S_NO_ECHO_WITH_VALUE
+                            | None, Some _ => S_NO_ECHO_WITH_DEFAULT
+                            | None, None => S_NO_ECHO_NO_DEFAULT
+                            end)).
+Proof.
+  intros Hb Hnd Hl Hn. rewrite (bind_params_precedence pseudo decls extra ps Hb Hnd s), Hl.
+  rewrite (ref_value_noecho d (supplied s extra) Hn). reflexivity.
+Qed.
+
+(* ---- non-interference (2): the VALUE of a NoEcho parameter's Default cannot influence the resolved model ---- *)
+(* only the PRESENCE of a Default is read *)
+Lemma ref_value_noecho_presence d1 d2 provided : is_noecho d1 = true -> is_noecho d2 = true ->
+  (field K_Default d1 = None <-> field K_Default d2 = None) ->
+  ref_value d1 provided = ref_value d2 provided.
+Proof.
+  intros H1 H2 Hd. rewrite !ref_value_noecho by assumption.
+  destruct provided as [p|]; [reflexivity|].
+  destruct (field K_Default d1) as [x|], (field K_Default d2) as [y|]; try reflexivity.
+  - destruct Hd as [_ Hd]. discriminate (Hd eq_refl).
+  - destruct Hd as [Hd _]. discriminate (Hd eq_refl).
+Qed.
+
+Lemma keys_replace_decl {A} (pre post : list (str * A)) s d1 d2 :
+  keys (pre ++ (s, d1) :: post) = keys (pre ++ (s, d2) :: post).
+Proof. unfold keys. rewrite !map_app. reflexivity. Qed.
+
+Lemma bind_declared_same_binding pre s d1 d2 post extra :
+  ref_value d1 (supplied s extra) = ref_value d2 (supplied s extra) ->
+  bind_declared (pre ++ (s, d1) :: post) extra = bind_declared (pre ++ (s, d2) :: post) extra.
+Proof.
+  intros H. induction pre as [|[k d] pre IH]; simpl; [rewrite H; reflexivity | rewrite IH; reflexivity].
+Qed.
+
+(* KEY LEMMA: two declaration lists that differ in ONE declaration which yields the same reference value give the same bindings *)
+Lemma bind_params_same_binding pseudo pre s d1 d2 post extra :
+  ref_value d1 (supplied s extra) = ref_value d2 (supplied s extra) ->
+  bind_params pseudo (pre ++ (s, d1) :: post) extra = bind_params pseudo (pre ++ (s, d2) :: post) extra.
+Proof.
+  intros H. unfold bind_params.
+  rewrite (bind_declared_same_binding pre s d1 d2 post extra H), (keys_replace_decl pre post s d1 d2). reflexivity.
+Qed.
+
+(* resolve_model reads the declarations only through bind_params *)
+Lemma resolve_model_bindings pseudo decls1 decls2 extra maps cdecl rs :
+  bind_params pseudo decls1 extra = bind_params pseudo decls2 extra ->
+  resolve_model pseudo decls1 extra maps cdecl rs = resolve_model pseudo decls2 extra maps cdecl rs.
+Proof. intros H. unfold resolve_model. rewrite H. reflexivity. Qed.
+
+(* general form: two NoEcho declarations of S (whatever else they say: Type, Description, ...) that agree on the PRESENCE of a
+   Default are indistinguishable, whether or not a value is supplied for S *)
+Theorem noecho_default_noninterference_gen pseudo pre post extra maps cdecl rs s d1 d2 :
+  is_noecho d1 = true -> is_noecho d2 = true -> (field K_Default d1 = None <-> field K_Default d2 = None) ->
+  resolve_model pseudo (pre ++ (s, d1) :: post) extra maps cdecl rs =
+  resolve_model pseudo (pre ++ (s, d2) :: post) extra maps cdecl rs.
+Proof.
+  intros H1 H2 Hd. apply resolve_model_bindings, bind_params_same_binding, ref_value_noecho_presence; assumption.
+Qed.
+
+(* the declaration [VDict l] with its Default set to v (d["Default"] = v) *)
+Definition with_default (v : value) (l : list (str * value)) : value := VDict (set_key K_Default v l).
+
+Lemma lookup_set_key_eq k v d : lookup k (set_key k v d) = Some v.
+Proof.
+  induction d as [|[k' x] r IH]; simpl; [rewrite str_eqb_refl; reflexivity|].
+  destruct (str_eqb k k') eqn:E; simpl; rewrite E; [reflexivity | exact IH].
+Qed.
+Lemma lookup_set_key_neq k k' v d : str_eqb k k' = false -> lookup k (set_key k' v d) = lookup k d.
+Proof.
+  intros Hne. induction d as [|[k2 x] r IH]; simpl; [rewrite Hne; reflexivity|].
+  destruct (str_eqb k' k2) eqn:E; simpl.
+  - apply str_eqb_spec in E. subst k2. rewrite Hne. reflexivity.
+  - destruct (str_eqb k k2); [reflexivity | exact IH].
+Qed.
+
+Lemma with_default_noecho v l : is_noecho (with_default v l) = is_noecho (VDict l).
+Proof. unfold is_noecho, with_default, field. rewrite lookup_set_key_neq by reflexivity. reflexivity. Qed.
+Lemma with_default_type v l : is_list_type (with_default v l) = is_list_type (VDict l).
+Proof. unfold is_list_type, with_default, field. rewrite lookup_set_key_neq by reflexivity. reflexivity. Qed.
+(* a Default is present as soon as it is not None: "" and 0 ARE defaults *)
+Lemma with_default_field v l : v <> VNull -> field K_Default (with_default v l) = Some v.
+Proof. intros H. unfold with_default, field. rewrite lookup_set_key_eq. destruct v; try reflexivity. contradiction. Qed.
+
+(* both declarations bind S to the same thing: the WITH_DEFAULT marker when no value is supplied (the WITH_VALUE one otherwise) *)
+Lemma with_default_binding pseudo pre post extra ps s l v :
+  bind_params pseudo (pre ++ (s, with_default v l) :: post) extra = Ok ps -> NoDup (keys (pre ++ (s, with_default v l) :: post)) ->
+  is_noecho (VDict l) = true -> v <> VNull -> supplied s extra = None ->
+  lookup s ps = Some (VStr S_NO_ECHO_WITH_DEFAULT).
+Proof.
+  intros Hb Hnd Hn Hv Hs.
+  assert (Hl : lookup s (pre ++ (s, with_default v l) :: post) = Some (with_default v l)).
+  { clear Hb. induction pre as [|[k d] pre IH]; simpl in *; [rewrite str_eqb_refl; reflexivity|].
+    inv Hnd. destruct (str_eqb s k) eqn:E; [|apply IH; assumption].
+    apply str_eqb_spec in E. subst k. exfalso. apply H1. unfold keys. rewrite map_app. apply in_or_app. right. left. reflexivity. }
+  rewrite (bind_params_noecho pseudo _ extra ps s _ Hb Hnd Hl) by (rewrite with_default_noecho; assumption).
+  rewrite Hs, (with_default_field v l Hv). reflexivity.
+Qed.
+
+(* two declarations that differ ONLY in the value of S's Default (both present; falsy values such as "" and 0 included) *)
+Theorem noecho_default_noninterference pseudo pre post extra maps cdecl rs s l v1 v2 :
+  is_noecho (VDict l) = true -> v1 <> VNull -> v2 <> VNull ->
+  resolve_model pseudo (pre ++ (s, with_default v1 l) :: post) extra maps cdecl rs =
+  resolve_model pseudo (pre ++ (s, with_default v2 l) :: post) extra maps cdecl rs.
+Proof.
+  intros Hn H1 H2. apply noecho_default_noninterference_gen; try (rewrite with_default_noecho; assumption).
+  rewrite !with_default_field by assumption. split; discriminate.
+Qed.
